@@ -55,8 +55,34 @@ pub fn string_push(_s: &mut String, c: char) {
     put_char(c);
 }
 
+/// pending result of a stubbed `str::repeat` (byte, count): consumed by the next push_str
+pub static mut PENDING_REPEAT: Option<(u8, usize)> = None;
+
+/// stub for `str::repeat` on a ONE-byte string (the only use in the kernels): remembers what to
+/// repeat; the following `push_str(&that_string)` appends it to the sink.
+pub fn str_repeat_1(s: &str, n: usize) -> String {
+    assert!(s.len() == 1, "str_repeat_1 stub: one-byte pattern expected");
+    unsafe {
+        ACTIVE = true;
+        PENDING_REPEAT = Some((s.as_bytes()[0], n));
+    }
+    String::new()
+}
+
 /// stub for `alloc::string::String::push_str`
 pub fn string_push_str(_s: &mut String, t: &str) {
+    unsafe {
+        ACTIVE = true;
+        if let Some((b, n)) = PENDING_REPEAT {
+            PENDING_REPEAT = None;
+            let mut i = 0;
+            while i < n {
+                put(b);
+                i += 1;
+            }
+            return;
+        }
+    }
     let b = t.as_bytes();
     let mut i = 0;
     while i < b.len() {
